@@ -242,6 +242,18 @@ Section Chain.
   Definition obj_key (st : pstate) (id : nat) : str :=
     match nth_error (ps_objs st) id with Some o => o_key o | None => [] end.
 
+  (* Chain._create_task in the second pass: an object with this (slug, key) already in the registry is
+     returned as it is, otherwise the new object is registered *)
+  Definition register (st : pstate) (slug key name : str) (o : obj) : pstate * nat :=
+    match reg_find slug key (ps_registry st) with
+    | Some id =>
+        ({| ps_objs := ps_objs st; ps_registry := ps_registry st; ps_new := dset name id (ps_new st) |}, id)
+    | None =>
+        let id := List.length (ps_objs st) in
+        ({| ps_objs := ps_objs st ++ [o]; ps_registry := ps_registry st ++ [(slug, key, id)];
+            ps_new := dset name id (ps_new st) |}, id)
+    end.
+
   Fixpoint get_task (fuel : nat) (tasks1 : list (str * node)) (name : str) (st : pstate) : res (pstate * nat) :=
     match fuel with
     | O => inr ECycle
@@ -274,18 +286,9 @@ Section Chain.
                         match task_key H (n_ns nd) (n_params nd) inkeys with
                         | inr e => inr e
                         | inl key =>
-                            match reg_find (c_slug tc) key (ps_registry st1) with
-                            | Some id =>
-                                inl ({| ps_objs := ps_objs st1; ps_registry := ps_registry st1;
-                                        ps_new := dset name id (ps_new st1) |}, id)
-                            | None =>
-                                let id := List.length (ps_objs st1) in
-                                let o := {| o_cls := n_cls nd; o_cfg := n_cfg nd; o_ns := n_ns nd; o_fullname := name;
-                                            o_params := n_params nd; o_inkeys := inkeys; o_key := key; o_inputs := [] |} in
-                                inl ({| ps_objs := ps_objs st1 ++ [o];
-                                        ps_registry := ps_registry st1 ++ [(c_slug tc, key, id)];
-                                        ps_new := dset name id (ps_new st1) |}, id)
-                            end
+                            inl (register st1 (c_slug tc) key name
+                                           {| o_cls := n_cls nd; o_cfg := n_cfg nd; o_ns := n_ns nd; o_fullname := name;
+                                              o_params := n_params nd; o_inkeys := inkeys; o_key := key; o_inputs := [] |})
                         end
                     end
                 end
